@@ -214,6 +214,24 @@ class Repo:
         self.inlined = []
         self.opaque_callers = {}
         if inline:
+            from . import tempinline as TI
+            kl = TI.load_known()
+            self.folded_temps = 0
+            if kl is not None:
+                touched = set()
+                for q, f in list(self.funcs.items()):
+                    n = TI.normalise_function(f.node, kl.get(q, set()))
+                    if n:
+                        self.folded_temps += n
+                        touched.add(f.module.name)
+                for mn in touched:
+                    m = self.modules[mn]
+                    ast.fix_missing_locations(m.tree)
+                    A.set_parents(m.tree)
+                    for n in ast.walk(m.tree):
+                        if not hasattr(n, "_module"):
+                            n._module = m
+        if inline:
             from . import inline as INL
             known = INL.load_known()
             if known is not None:
